@@ -220,9 +220,16 @@ def pack_obs(obs):
         return f"(IS {ix(r[1])})"
 
     snaps = []
+    prev = ([], [])
     for s in obs:
-        snaps.append("{| i_res := " + ires(s["res"]) + "; i_list := " + clist(ctuple(ix(a), ix(b)) for a, b in s["list"])
-                     + "; i_rev := " + clist(ctuple(ix(a), ix(b)) for a, b in s["rev"]) + "; i_api := " + cbool(s["api"]) + " |}")
+        cur = (s["list"], s["rev"])
+        if cur == prev:
+            lists = "None"
+        else:
+            lists = ("(Some (" + clist(ctuple(ix(a), ix(b)) for a, b in s["list"]) + ", "
+                     + clist(ctuple(ix(a), ix(b)) for a, b in s["rev"]) + "))")
+        prev = cur
+        snaps.append("{| j_res := " + ires(s["res"]) + "; j_lists := " + lists + "; j_api := " + cbool(s["api"]) + " |}")
     body = clist(snaps)  # fills the table
     return clist(cstr(x) for x in tab), body
 
@@ -314,7 +321,7 @@ class C17(Suite):
 
     def coq_obs(self, obs):
         tab, body = pack_obs(obs)
-        return f"(Packed {tab} {body})"
+        return f"(PackedD {tab} {body})"
 
     def nontrivial(self, case, obs):
         kinds = [o[0] for o in case["ops"]]
@@ -400,12 +407,12 @@ class C17Conf(Suite):
     name = "nsconform"
     imports = "From RV Require Import Namespace.Model."
     case_ty = "case"
-    obs_ty = "cobs"
-    model = "conf_model"
-    oeq = "conf_eqb"
-    spec = "conf_spec"
+    obs_ty = "dobs"
+    model = "confd_model"
+    oeq = "confd_eqb"
+    spec = "confd_spec"
     corr = "Graph.bind/parse/serialize, NamespaceManager with bind_namespaces=rdflib|core|none (conformance only)"
-    quick_n = 50
+    quick_n = 40
     thorough_n = 2000
     timeout_s = 20.0
 
@@ -492,7 +499,8 @@ class C17Conf(Suite):
         return "{| c_cats := []; c_ops := " + clist(ops) + "; c_tag := 0%N |}"
 
     def coq_obs(self, obs):
-        return ctuple(*pack_obs(obs))
+        tab, body = pack_obs(obs)
+        return f"(PackedD {tab} {body})"
 
     def nontrivial(self, case, obs):
         kinds = {o[0] for o in case["ops"]}
@@ -654,7 +662,7 @@ class C17Dataset(Suite):
 
     def coq_obs(self, obs):
         tab, body = pack_obs(obs)
-        return f"(Packed {tab} {body})"
+        return f"(PackedD {tab} {body})"
 
     def nontrivial(self, case, obs):
         # a binding change through one object and a question through another
@@ -705,7 +713,7 @@ class C17DsConf(C17Conf):
     kf = "conf_kf"
     kf_ids = {4: "F6e"}
     corr = "Dataset/ConjunctiveGraph.parse/serialize/bind, get_context, default_context (conformance only)"
-    quick_n = 40
+    quick_n = 30
     thorough_n = 1500
 
     # case = {"root", "defaults": None|"none"|"core", "objs", "iris", "ops", "via"}
@@ -811,24 +819,410 @@ class C17DsConf(C17Conf):
                 yield dict(case, iris=case["iris"][:i] + case["iris"][i + 1:])
 
 
-SUITES = [C17(), C17Conf(), C17Dataset(), C17DsConf()]
+class C17World(Suite):
+    """Several NamespaceManagers over one store, modelled as they are: the dataset's manager (shared by
+    the named graphs), the one ConjunctiveGraph.default_context builds for itself (also reached by
+    Dataset.parse), a user's second Graph on the store.  Every operation goes through one object; managers
+    come into being at explicit "create" steps.  Model: coq/Namespace/Model.v [world]."""
+
+    name = "nsworld"
+    imports = "From RV Require Import Namespace.Model Gen.Tables_nsdefaults."
+    case_ty = "wcase"
+    obs_ty = "dobs"
+    model = "wd_model"
+    oeq = "d_eqb"
+    spec = "wd_spec"
+    kf = "w_kf"
+    kf_ids = {5: "F6e"}
+    corr = ("NamespaceManager.__init__ (stock prefixes), Graph.namespace_manager (lazy, per object), "
+            "ConjunctiveGraph.default_context / Dataset.parse, all NamespaceManager operations through any of "
+            "several managers over one Memory store")
+    quick_n = 50
+    thorough_n = 3000
+
+    STOCK = {"none": "[]", "core": "stock_core", "rdflib": "stock_rdflib"}
+    # object kinds: shared with the root's manager: graph get_context fresh; own manager: dc (stock rdflib),
+    # extra_none / extra_core (Graph(store=root.store, bind_namespaces=...))
+    # case = {"root", "defaults": "none"|"core", "objs": [[kind, ident]], "iris", "ops", "via"}
+    # ops: C17 ops | ["parse1", prefix, ns] | ["create"] (touch the object's namespace_manager)
+
+    def gen(self, rng, i):
+        root = rng.choice(["dataset", "dataset", "cg"])
+        own = rng.choice([["dc"], ["dc"], ["extra_none"], ["extra_core"], ["dc", "extra_none"]])
+        objs = [[k, k] for k in own]
+        if rng.random() < 0.5:
+            objs.append([rng.choice(["get_context", "fresh"] + (["graph"] if root == "dataset" else [])), "h:g1"])
+        stock_ns = ["http://www.w3.org/2002/07/owl#", "http://xmlns.com/foaf/0.1/", "https://schema.org/"]
+        nss = rng.sample(NAMESPACES, 2) + ([rng.choice(stock_ns)] if "dc" in own or rng.random() < 0.3 else [])
+        pfx = rng.sample(["a", "b", "", None, "_g", "ns1", "owl", "sdo", "foaf"], 3)
+        iris = sorted({rng.choice(nss) + rng.choice(["x", "b", "Class"]) for _ in range(rng.choice([1, 2]))})
+        created = set()
+        ops, via = [], []
+        for _ in range(rng.choice([3, 4, 5, 6, 7])):
+            v = rng.randrange(len(objs) + 1)
+            if v > 0 and objs[v - 1][0] in ("dc", "extra_none", "extra_core") and v not in created:
+                ops.append(["create"])
+                via.append(v)
+                created.add(v)
+                continue
+            r = rng.random()
+            u = rng.choice(iris)
+            if r < 0.35:
+                fl = rng.choice([(True, False), (True, False), (False, False), (False, True), (True, True)])
+                ops.append(["bind", rng.choice(pfx), rng.choice(nss), fl[0], fl[1], True])
+            elif r < 0.50:
+                ops.append(["parse1", rng.choice([p for p in pfx if p] or ["a"]), rng.choice(nss)])
+            elif r < 0.80:
+                ops.append(["qname", u, rng.random() < 0.5])
+            elif r < 0.86:
+                ops.append(["curie", u, True])
+            elif r < 0.92:
+                ops.append(["strict", u, True])
+            elif r < 0.97:
+                ops.append(["norm", u, True])
+            else:
+                ops.append(["reset"])
+            via.append(v)
+        return {"root": root, "defaults": rng.choice(["none", "none", "core"]), "objs": objs, "iris": iris,
+                "ops": ops, "via": via}
+
+    # ---- the flattened history: (kind, manager number or stock name, op)
+    def plan(self, case):
+        """steps: ("new", stock) | ("op", manager, op) | ("probe", manager, iri), and for the implementation
+        which object each goes through"""
+        kinds = [k for k, _ in case["objs"]]
+        mgr_of = {0: 0}  # object index -> manager number
+        for j, k in enumerate(kinds, 1):
+            if k not in ("dc", "extra_none", "extra_core"):
+                mgr_of[j] = 0
+        stock_of = {"dc": "rdflib", "extra_none": "none", "extra_core": "core"}
+        steps = [("new", case["defaults"], 0)]
+        n_mgr = 1
+        dc_obj = next((j for j, k in enumerate(kinds, 1) if k == "dc"), None)
+
+        def probes():
+            done = set()
+            for j in sorted(mgr_of):
+                if mgr_of[j] in done:
+                    continue
+                done.add(mgr_of[j])
+                for u in case["iris"]:
+                    steps.append(("probe", mgr_of[j], j, u))
+
+        def create(j):
+            nonlocal n_mgr
+            mgr_of[j] = n_mgr
+            n_mgr += 1
+            steps.append(("new", stock_of[kinds[j - 1]], j))
+            probes()
+
+        probes()
+        for op, v in zip(case["ops"], case["via"]):
+            if op[0] == "create":
+                if v not in mgr_of:
+                    create(v)
+                continue
+            target = v
+            if op[0] == "parse1" and v == 0:
+                # Dataset.parse / ConjunctiveGraph.parse hand the document to self.default_context
+                if dc_obj is None:
+                    kinds.append("dc")
+                    dc_obj = len(kinds)
+                if dc_obj not in mgr_of:
+                    create(dc_obj)
+                target = dc_obj
+            elif v not in mgr_of:
+                create(v)
+            o = ["bind", op[1], op[2], True, False, True] if op[0] == "parse1" else op
+            steps.append(("op", mgr_of[target], v, o, op))
+            probes()
+        return steps
+
+    def run_impl(self, case):
+        root = make_root(case["root"], case["defaults"])
+        objs = {0: root}
+        for j, (kind, ident) in enumerate(case["objs"], 1):
+            if kind == "dc":
+                objs[j] = root.default_context
+            elif kind in ("extra_none", "extra_core"):
+                objs[j] = Graph(store=root.store, identifier=URIRef("h:extra"), bind_namespaces=kind[6:])
+            elif kind == "graph" and isinstance(root, Dataset):
+                objs[j] = root.graph(URIRef(ident))
+            elif kind == "fresh":
+                objs[j] = None
+            else:
+                objs[j] = root.get_context(URIRef(ident))
+        objs[len(case["objs"]) + 1] = root.default_context  # the implicit target of root.parse
+
+        def ob(j):
+            return root.get_context(URIRef("h:g1")) if objs[j] is None else objs[j]
+
+        live = [0] + [j for j, (k, _) in enumerate(case["objs"], 1) if k in ("graph", "get_context", "fresh")]
+        names = sorted({x for x in case_strings(case)})
+        obs = []
+        for st in self.plan(case):
+            if st[0] == "new":
+                if st[2] != 0:
+                    ob(st[2]).namespace_manager  # comes into being here
+                    live.append(st[2])
+                res = ["unit"]
+            elif st[0] == "probe":
+                res = do_op(ob(st[2]), ["compute", st[3], False])
+            else:
+                o, orig = st[3], st[4]
+                if orig[0] == "parse1":
+                    try:
+                        ob(st[2]).parse(data="@prefix %s: <%s> . <h:s> <h:p> %s:o ." % (orig[1], orig[2], orig[1]),
+                                        format="turtle")
+                        res = ["unit"]
+                    except Exception as e:  # noqa: BLE001
+                        res = ["exn", type(e).__name__]
+                else:
+                    res = do_op(ob(st[2]), o)
+            obs.append(snapshot(root, res, names if st[0] == "op" else (), [ob(j) for j in live]))
+        return obs
+
+    def on_timeout(self, case):
+        return [{"res": ["s", "!!timeout"], "list": [], "rev": [], "api": False}]
+
+    def coq_case(self, case):
+        steps = self.plan(case)
+        ops = []
+        flat = []
+        for st in steps:
+            if st[0] == "new":
+                ops.append(f"WNew {self.STOCK[st[1]]}")
+            elif st[0] == "probe":
+                ops.append(f"WOp {cN(st[1])} (OCompute {cstr(st[3])} false)")
+                flat.append(["compute", st[3], False])
+            else:
+                ops.append(f"WOp {cN(st[1])} ({c_op(st[3])})")
+                flat.append(st[3])
+        cats = clist(ctuple(cN(c), cN(k)) for c, k in cat_table({"ops": flat}))
+        return "{| wc_cats := " + cats + "; wc_ops := " + clist(ops) + " |}"
+
+    def coq_obs(self, obs):
+        tab, body = pack_obs(obs)
+        return f"(PackedD {tab} {body})"
+
+    def nontrivial(self, case, obs):
+        steps = self.plan(case)
+        return len({st[1] for st in steps if st[0] == "op" and st[3][0] == "bind"}) >= 1 and \
+            sum(1 for st in steps if st[0] == "new") >= 2
+
+    def features(self, case, obs):
+        steps = self.plan(case)
+        f = {"root_" + case["root"]: 1, "defaults_" + case["defaults"]: 1, "snapshots": len(obs),
+             "managers": sum(1 for st in steps if st[0] == "new")}
+        for k, _ in case["objs"]:
+            f["obj_" + k] = f.get("obj_" + k, 0) + 1
+        for st in steps:
+            if st[0] == "op":
+                k = "op_" + st[4][0] + ("_root_mgr" if st[1] == 0 else "_other_mgr")
+                f[k] = f.get(k, 0) + 1
+        f["parse_through_dataset"] = int(any(o[0] == "parse1" and v == 0 for o, v in zip(case["ops"], case["via"])))
+        return f
+
+    def shrink(self, case):
+        ops, via = case["ops"], case["via"]
+        for i in range(len(ops)):
+            yield dict(case, ops=ops[:i] + ops[i + 1:], via=via[:i] + via[i + 1:])
+        if len(case["iris"]) > 1:
+            for i in range(len(case["iris"])):
+                yield dict(case, iris=case["iris"][:i] + case["iris"][i + 1:])
+        if case["defaults"] != "none":
+            yield dict(case, defaults="none")
+
+
+# ------------------------------------------------------------------ Turtle serialiser: prefixes
+import io  # noqa: E402
+import re  # noqa: E402
+
+from rdflib.namespace import RDF  # noqa: E402
+from rdflib.plugins.serializers.turtle import TurtleSerializer  # noqa: E402
+
+SER_NS = ["h:e/", "h:e/a#", "h:f/", "u:x:", "h:e/a/", "h:e/ab"]
+SER_PFX = ["a", "_g", "p_g", "pp_g", "_", "p_", "b", "", "ns1", "pns1"]
+SER_LOCALS = ["x", "b", "y.", "(p)", "", "c", "ab"]
+SER_DT = ["h:e/a#dt", "h:d/t", "u:x:dt"]
+
+
+def ser_graph(case):
+    g = Graph(bind_namespaces="none")
+    for op in case["setup"]:
+        do_op(g, op)
+    for s_, p_, o_ in case["triples"]:
+        o = Literal("v", datatype=URIRef(o_[1]) if o_[1] else None) if isinstance(o_, list) else URIRef(o_)
+        g.add((URIRef(s_), RDF.type if p_ == "rdf:type" else URIRef(p_), o))
+    return g
+
+
+def ser_calls(g):
+    """the getQName calls preprocess() makes for URIRef terms, in the store's triple order"""
+    calls = []
+    for s_, p_, o_ in g.triples((None, None, None)):
+        calls.append([str(s_), False])
+        if p_ != RDF.type:
+            calls.append([str(p_), True])
+        if isinstance(o_, URIRef):
+            calls.append([str(o_), False])
+        elif isinstance(o_, Literal) and o_.datatype:
+            calls.append([str(o_.datatype), False])
+    return calls
+
+
+class C17Serial(Suite):
+    """TurtleSerializer: the preprocess pass (getQName for every term, generating prefixes for predicates),
+    addNamespace with its '_' / clash rewriting, and the @prefix header, against coq/Namespace/SerModel.v."""
+
+    name = "nsserial"
+    imports = "From RV Require Import Namespace.SerModel."
+    case_ty = "scase"
+    obs_ty = "sobs"
+    model = "ser_model"
+    oeq = "sobs_eqb"
+    spec = "ser_spec"
+    corr = "TurtleSerializer.preprocess/preprocessTriple/getQName/addNamespace/startDocument, RecursiveSerializer.addNamespace"
+    quick_n = 150
+    thorough_n = 6000
+
+    # case = {"setup": [bind ops], "triples": [[s, p, o | ["lit", dt|None]]], "calls": [[iri, gen]...]}
+    def gen(self, rng, i):
+        nss = rng.sample(SER_NS, rng.choice([2, 3, 4]))
+        pfx = rng.sample(SER_PFX, rng.choice([2, 3, 4]))
+        setup = []
+        for _ in range(rng.choice([1, 2, 3, 4])):
+            setup.append(["bind", rng.choice(pfx), rng.choice(nss), True, False, True])
+        if rng.random() < 0.15:
+            setup.append(["qname", rng.choice(nss) + "x", False])
+        iri = lambda: rng.choice(SER_NS) + rng.choice(SER_LOCALS)  # noqa: E731
+        triples = []
+        for _ in range(rng.choice([1, 2, 3, 4])):
+            r = rng.random()
+            o = iri() if r < 0.6 else ["lit", rng.choice(SER_DT + [None])]
+            triples.append([iri() or "h:e/x", "rdf:type" if rng.random() < 0.15 else (iri() or "h:e/p"), o])
+        case = {"setup": setup, "triples": triples}
+        case["calls"] = ser_calls(ser_graph(case))
+        return case
+
+    def run_impl(self, case):
+        g = ser_graph(case)
+        if ser_calls(g) != case["calls"]:
+            return {"bad_order": True}
+        ser = TurtleSerializer(g)
+        log, phase, at_header = [], ["pre"], [None]
+        orig, orig_sd = ser.getQName, ser.startDocument
+
+        def unq(r):
+            if r is None:
+                return ["none"]
+            p_, l_ = r.split(":", 1)
+            return ["name", p_, l_.replace("\\(", "(").replace("\\)", ")")]
+
+        def wrapped(uri, gen_prefix=True):
+            try:
+                r = orig(uri, gen_prefix)
+            except Exception:
+                log.append([phase[0], str(uri), ["raise"]])
+                raise
+            if isinstance(uri, URIRef):
+                log.append([phase[0], str(uri), unq(r)])
+            return r
+
+        def sd():
+            phase[0] = "body"
+            at_header[0] = [[p_, str(n_)] for p_, n_ in ser.namespaces.items()]
+            return orig_sd()
+
+        ser.getQName, ser.startDocument = wrapped, sd
+        out = io.BytesIO()
+        try:
+            ser.serialize(out)
+            text = out.getvalue().decode("utf-8")
+            raised = False
+        except Exception:  # noqa: BLE001
+            text, raised = "", True
+        header = [[m.group(1), m.group(2)] for m in re.finditer(r"^@prefix (\S*): <(.*)> \.$", text, re.M)]
+        snap = snapshot(g, ["unit"], ())
+        ns_end = [[p_, str(n_)] for p_, n_ in ser.namespaces.items()]
+        return {"list": snap["list"], "rev": snap["rev"], "api": snap["api"] and (raised or at_header[0] == ns_end),
+                "ns": ns_end, "rw": [[a_, b_] for a_, b_ in ser._ns_rewrite.items()],
+                "log": [[u_, r_] for ph, u_, r_ in log if ph == "pre"], "header": header,
+                "body": [[u_, r_] for ph, u_, r_ in log if ph == "body"]}
+
+    def on_timeout(self, case):
+        return {"bad_order": True}
+
+    def coq_case(self, case):
+        flat = [o for o in case["setup"]] + [["compute", u, g] for u, g in case["calls"]]
+        cats = clist(ctuple(cN(c), cN(k)) for c, k in cat_table({"ops": flat}))
+        return ("{| sc_cats := " + cats + "; sc_setup := " + clist(c_op(o) for o in case["setup"])
+                + "; sc_calls := " + clist(ctuple(cstr(u), cbool(g)) for u, g in case["calls"]) + " |}")
+
+    def coq_obs(self, obs):
+        if obs.get("bad_order") or not obs.get("api", True):
+            return ("{| so_list := [([33%N], [33%N]); ([33%N], [33%N])]; so_rev := []; so_ns := []; so_rw := []; "
+                    "so_log := []; so_header := []; so_body := [] |}")
+
+        def q(r):
+            return "QRaise" if r[0] == "raise" else "QNone" if r[0] == "none" else f"(QName {cstr(r[1])} {cstr(r[2])})"
+
+        def lg(l):
+            return clist(ctuple(cstr(u), q(r)) for u, r in l)
+
+        return ("{| so_list := " + c_pairs(obs["list"]) + "; so_rev := " + c_pairs(obs["rev"]) + "; so_ns := "
+                + c_pairs(obs["ns"]) + "; so_rw := " + c_pairs(obs["rw"]) + "; so_log := " + lg(obs["log"])
+                + "; so_header := " + c_pairs(obs["header"]) + "; so_body := " + lg(obs["body"]) + " |}")
+
+    def nontrivial(self, case, obs):
+        return bool(obs.get("ns"))
+
+    def features(self, case, obs):
+        f = {"triples": len(case["triples"]), "calls": len(case["calls"])}
+        if obs.get("bad_order"):
+            return f
+        f["rewritten_prefixes"] = len(obs["rw"])
+        f["generated"] = sum(1 for p_, _ in obs["ns"] if re.fullmatch(r"ns\d+", p_))
+        f["raised"] = int(any(r[0] == "raise" for _, r in obs["log"]))
+        f["names_pre"] = sum(1 for _, r in obs["log"] if r[0] == "name")
+        f["names_body"] = sum(1 for _, r in obs["body"] if r[0] == "name")
+        f["none_answers"] = sum(1 for _, r in obs["log"] if r[0] == "none")
+        return f
+
+    def shrink(self, case):
+        for i in range(len(case["triples"])):
+            c = {"setup": case["setup"], "triples": case["triples"][:i] + case["triples"][i + 1:]}
+            c["calls"] = ser_calls(ser_graph(c))
+            yield c
+        for i in range(len(case["setup"])):
+            c = {"setup": case["setup"][:i] + case["setup"][i + 1:], "triples": case["triples"]}
+            c["calls"] = ser_calls(ser_graph(c))
+            yield c
+
+
+SUITES = [C17(), C17Conf(), C17Dataset(), C17World(), C17DsConf(), C17Serial()]
 
 
 TRUSTED = [
     "Coq 8.16.1 kernel and standard library",
-    "harness/c17.py: translation of cases/observations to Coq literals; reads Memory.__prefix through its mangled name",
+    "harness/c17.py: translation of cases/observations to Coq literals (string table + indices, decoded in Coq); reads "
+    "Memory.__prefix and the serialiser's namespaces/_ns_rewrite through their attribute names; wraps the serialiser's "
+    "getQName/startDocument on the instance to log calls",
     "unicodedata.category (the same function rdflib calls) supplies the character classes handed to the model",
-    "coq/Namespace/Model.v is a faithful transcription of the anchored Python (tied by the correspondence runs)",
+    "harness/reflect_nsdefaults.py renders _NAMESPACE_PREFIXES_RDFLIB/_CORE from the tree under test on every run",
+    "coq/Namespace/Model.v and SerModel.v are faithful transcriptions of the anchored Python (tied by the correspondence runs)",
 ]
 ASSUMPTIONS = [
     "IRIs are passed to the manager as URIRef, prefixes and CURIEs as str (the qname cache and the tries key on the Python type too)",
-    "the values of __strie alias nodes of __trie; the model looks the node up in the trie instead",
-    "one NamespaceManager per store: the dataset object and the named graphs obtained from it share it (checked by the "
-    "nsdataset suite), the parsers share the sink's (F6d fix); a user-made second Graph on the store, and today "
-    "ConjunctiveGraph.default_context (finding F6e), have a qname cache of their own",
-    "the while-loops that search a free numbered prefix are bounded by |bindings|+1 iterations",
+    "the values of __strie alias nodes of __trie; the model looks the node up in the trie instead (find_sub); argued and exercised, not proved",
+    "managers are modelled per store as they are (world model): the dataset and its named graphs share one, "
+    "ConjunctiveGraph.default_context and a user's second Graph have their own; a manager comes into being at the first "
+    "touch of .namespace_manager, which the harness makes an explicit step",
+    "the while-loops that search a free numbered prefix / a free p-prefix are bounded by |bindings|+1 iterations",
+    "the serialiser's preprocess sees the triples in the order Graph.triples((None, None, None)) yields them (read from the "
+    "graph when the case is generated; PYTHONHASHSEED=0); the statements of the body are not modelled, only the names they use are checked",
 ]
-RULE = ("nsdataset: 2-6 operations routed through a Dataset/ConjunctiveGraph and 1-2 named graphs of it, every IRI asked "
+RULE = ("nsworld: 3-7 operations routed through 2-3 managers over one store (dataset, default_context, second Graph), every IRI asked through every manager after each step; nsserial: 1-4 bindings (prefixes _g p_g pp_g ns1 pns1 '' ...) and 1-4 triples over 6 nested namespaces; nsdataset: 2-6 operations routed through a Dataset/ConjunctiveGraph and 1-2 named graphs of it, every IRI asked "
         "through every object after each step; nsmanager: histories of 2-12 operations over 2-5 namespaces drawn from a nested/overlapping family and 2-5 prefixes "
         "(empty, None, generated-looking, '_'-prefixed); distinct by full case content; non-trivial = contains a bind "
         "and a qname-like call")
